@@ -39,9 +39,12 @@ Outs(e) ==
 RepExpected(e) ==
     LET fo == e.folders  fi == e.files
         Sec(F) == IF fo[F].live THEN "folders" ELSE "deleted_folders"
+        \* the report is keyed by folder name: the content of a deleted folder is judged when no other deleted folder
+        \* carries its name (the harness leaves the content of shared names out, reading the plain tables)
+        Listed(F) == fo[F].live \/ \A G \in 1..Len(fo) : (G # F /\ ~fo[G].live) => fo[G].name # fo[F].name
     IN  {Sec(F) \o ":" \o fo[F].name : F \in 1..Len(fo)}
         \cup {Sec(fi[j].folder) \o ":" \o fo[fi[j].folder].name \o "/" \o fi[j].name \o ":" \o
-                 (IF fi[j].live THEN "files" ELSE "deleted_files") : j \in {k \in 1..Len(fi) : fo[fi[k].folder].live}}
+                 (IF fi[j].live THEN "files" ELSE "deleted_files") : j \in {k \in 1..Len(fi) : Listed(fi[k].folder)}}
 
 Clauses(e) ==
     [ NoError        |-> ~e.raised,
